@@ -247,6 +247,7 @@ def stepLine (st : St) (line : String) : St × String :=
           authEntityUnchecked := sw "authEntity" a.authEntityUnchecked }
       let dR : RoomNode.Defects :=
         { placingEdgeUnchecked := sw "placingEdge" r.placingEdgeUnchecked,
+          placingAuthorUnchecked := sw "placingAuthor" r.placingAuthorUnchecked,
           roomRowUnchecked := sw "roomRow" r.roomRowUnchecked,
           newGroupUserAdminUnchecked := sw "newGroupUserAdmin" r.newGroupUserAdminUnchecked,
           newestFirstRead := sw "newestFirstRead" r.newestFirstRead,
